@@ -44,6 +44,12 @@ def run(prog, tier):
     check_channel(R, prog)
     check_prefix(R, prog)
     check_convert(R, prog)
+    # library preconditions whose violation ends in an exception no caller shields (NetworkXError, TypeError, AttributeError on None)
+    from ._families import borrow
+    from . import c15, c14
+    borrow(R, P, "LIB-PRE", prog, c15.check_ext_pre, floor=1)
+    borrow(R, P, "LIB-PRE", prog, c15.check_sample_seq, floor=5)
+    borrow(R, P, "LIB-PRE", prog, c14.check_return_defined, floor=1)
     return R
 
 
